@@ -437,12 +437,22 @@ func ruleProtectedHeaders(c *Ctx) {
 		sp.InlineHelpers = true
 		tr := runTrace(p, fn, sp)
 		for _, path := range tr.Paths {
-			if !hasKind(path, "iter") {
+			ni := countKind(path, "iter")
+			if ni == 0 {
 				continue
 			}
+			// normalise to "per iteration": a path with k iterations must have k updates of the expected kind
 			iters++
-			updates += countKind(path, "replace")
-			appends += countKind(path, "append")
+			if countKind(path, "replace") == ni {
+				updates++
+			} else if countKind(path, "replace") > 0 {
+				updates += 1000
+			}
+			if countKind(path, "append") == ni {
+				appends++
+			} else if countKind(path, "append") > 0 {
+				appends += 1000
+			}
 		}
 		return
 	}
